@@ -136,9 +136,9 @@ func callAccessor(r *astRun, e pgs.Entity, acc string) []ref {
 		case "nonOneof":
 			return refsOfFields(r, x.NonOneOfFields())
 		case "oneofFields":
-			return refsOfFields(r, x.OneOfFields())
+			return sortRefs(refsOfFields(r, x.OneOfFields()))
 		case "synthFields":
-			return refsOfFields(r, x.SyntheticOneOfFields())
+			return sortRefs(refsOfFields(r, x.SyntheticOneOfFields()))
 		case "realOneofs":
 			out := []ref{}
 			for _, o := range x.RealOneOfs() {
